@@ -139,9 +139,7 @@ Proof.
 Qed.
 
 Section Sum.
-Context {V : Type} (o : ops V) (L : laws o) (SC : sum_closed o).
-Hypothesis add_comm : forall a b, add o a b = add o b a.
-Hypothesis sub_add_cancel : forall a b, is_null o a = false -> is_null o b = false -> sub o (add o a b) a = b.
+Context {V : Type} (o : ops V) (L : laws o).
 
 Definition run_sum (w : nat) (mp : Z) (want_mean : bool) (l : list V) : rcell :=
   sfold (sum_step o w mp want_mean) {| buf := repeat (null o) w; pos := 0; non_null := 0; n_seen := 0; acc := zero o |}
@@ -182,8 +180,10 @@ Proof.
   - rewrite sum_list_cons_nonnull. split; [reflexivity|lia].
 Qed.
 
-Lemma window_sum_nonnull q : is_null o (window_sum q) = false.
-Proof. unfold window_sum. apply (sum_list_nonnull o SC). intros x Hx. eapply nn_nonnull; eauto. Qed.
+(* subtracting the value that leaves gives back the sum of what stays: exact for integers (also when a running
+   sum passes through the timestamp sentinel: the kernel never inspects its accumulator); for floats in the exact
+   regime, where the sum of what stays is a number *)
+Hypothesis cancel : forall old q, is_null o old = false -> sub o (add o old (window_sum q)) old = window_sum q.
 
 Theorem sum_state w mp wm l : (0 < w)%nat ->
   let c := run_sum w mp wm l in
@@ -214,7 +214,7 @@ Proof.
       split; [lia|].
       destruct (is_null o old) eqn:Eo; cbn [negb].
       * destruct (is_null o v); cbn [negb]; split; reflexivity.
-      * rewrite sub_add_cancel by (auto; apply window_sum_nonnull).
+      * rewrite cancel by auto.
         destruct (is_null o v); cbn [negb]; split; try reflexivity; lia.
 Qed.
 
@@ -242,3 +242,14 @@ Lemma zops_add_comm nullable nullv a b : add (zops nullable nullv) a b = add (zo
 Proof. simpl. lia. Qed.
 Lemma zops_sub_add_cancel nullable nullv a b : sub (zops nullable nullv) (add (zops nullable nullv) a b) a = b.
 Proof. simpl. lia. Qed.
+
+(* the cancellation law for the two value domains *)
+Lemma zops_cancel nullable nullv old q : is_null (zops nullable nullv) old = false ->
+  sub (zops nullable nullv) (add (zops nullable nullv) old (window_sum (zops nullable nullv) q)) old = window_sum (zops nullable nullv) q.
+Proof. intros _. apply zops_sub_add_cancel. Qed.
+Lemma fops_cancel old q : is_null fops old = false ->
+  sub fops (add fops old (window_sum fops q)) old = window_sum fops q.
+Proof.
+  intros H. apply fops_sub_add_cancel; auto.
+  unfold window_sum. apply (sum_list_nonnull fops fops_sum_closed). intros x Hx. eapply nn_nonnull; eauto.
+Qed.
